@@ -777,6 +777,7 @@ class Unit:
                 d = parse_kv(st.split(None, 1)[1])
                 d.update({"attr": [], "spec": [], "subs": [], "loops": {}, "injects": [], "sig": None, "closure": closure})
                 i += 1
+                vx_block_start = i
                 sec, buf = None, []
 
                 def flush():
@@ -847,7 +848,10 @@ class Unit:
                         self.do_fn(d)
                     except ExtractError as e:
                         self.log.append({"rule": "X/closure-skipped", "fn": d.get("name"), "why": str(e)})
-                        self.out.append("// vx-skipped: lifted closure `%s` could not be extracted: %s" % (d.get("name"), str(e).replace("\n", " ")))
+                        # the properties whose obligations are lost with it are named, so that their checks report UNDECIDED instead of passing on what is left
+                        lost = sorted(set(re.findall(r"\[(C\d\d)\.[A-Za-z0-9_-]+\]", "\n".join(lines[vx_block_start:i]))) | ({d["default_tag"].split(".")[0]} if d.get("default_tag") else set()))
+                        self.out.append("// vx-skipped: lifted closure `%s` could not be extracted: %s %s" % (d.get("name"), str(e).replace("\n", " "),
+                                                                                                              " ".join("[%s.closure-skipped]" % t for t in lost)))
                 else:
                     self.do_fn(d)
             elif st.startswith("//@assume_text "):
